@@ -217,7 +217,11 @@ Fixpoint on_syn_loop (fuel : nat) (s : dstate) (y : syn) : dstate * bool (* done
   end.
 
 Definition on_syn (s : dstate) (y : syn) : dstate * list devent :=
-  let '(s1, done, e) := on_syn_loop (length (d_chan s) + 2) s y in
+  let '(s1, done, e) :=
+    match d_syns s with
+    | [] => on_syn_loop (length (d_chan s) + 2) s y
+    | _ :: _ => (s, false, [])      (* older SYNs are queued: queue behind them *)
+    end in
   if done then (s1, e)
   else if Z.of_nat (length (d_syns s1)) <? ACCEPT_QUEUE_MAX_SYNS
        then (upd_syns s1 (d_syns s1 ++ [y]), e)
@@ -308,7 +312,12 @@ Definition on_control (s : dstate) (c : control) (send : syn_send) : dstate * li
           | None => (s, [])
           end
       end
-  | CtlShutdown k => (upd_streams s (remove_stream (d_streams s) k), [])
+  | CtlShutdown k =>
+      (* only an entry whose connection is gone is removed: the key may have been re-used *)
+      match find_stream s k with
+      | Some en => if se_alive en then (s, []) else (upd_streams s (remove_stream (d_streams s) k), [])
+      | None => (s, [])
+      end
   end.
 
 (* a parsed datagram as the dispatcher sees it *)
